@@ -39,6 +39,7 @@ KANI = dict(
     rumqttd=dict(
         modpath=_modpath_c,
         modules=[
+            ('src/router/scheduler.rs', 'scheduler.rs', 'verif_kani'),
             ('src/protocol/v4/mod.rs', 'varint.rs', 'verif_kani_varint', dict(COPY='rumqttd::protocol::v4', LEN_LEN='len_len', CHECK_MAX='max as usize', SIZE_ERR_PAT='Error::PayloadSizeLimitExceeded(_)')),
             ('src/protocol/v5/mod.rs', 'varint.rs', 'verif_kani_varint', dict(COPY='rumqttd::protocol::v5', LEN_LEN='len_len', CHECK_MAX='max as usize', SIZE_ERR_PAT='Error::PayloadSizeLimitExceeded(_)')),
         ],
@@ -107,7 +108,7 @@ PROPS = dict(
         assumptions=['timing clauses of C18 are not covered'],
     ),
     C09=dict(
-        verus=['window', 'tracker'], kani=[],
+        verus=['window', 'tracker'], kani=['rumqttd'],
         scope='rumqttd Outgoing::{free_slots,register_ack,register_pubrec,register_pubcomp} under the window invariant WIN (ids consecutive in the 1..=100 cycle, <= 100 entries) incl. the lemma WIN => ids non-zero and pairwise distinct; Tracker::{try_ready,pause} wake-up table (IncomingAck resumes InflightFull/Caughtup)',
         residual='Outgoing::push_forwards (impl Iterator + parking_lot lock: outside Verus) and the call-site bound in forward_device_data (at most free_slots() items when qos != 0) are not under contract in this revision; unsolicited ack => that connection only and no-lost-wakeup across router turns are compositions in handle_device_payload/consume',
         assumptions=['stand-in declarations for parking_lot::Mutex, flume::Sender, Notification, DataRequest (held, never touched by the verified functions)'],
